@@ -29,7 +29,7 @@ PROP_FILE = LEAN / "BlackIt/Properties/C06.lean"
 FILES = ["calibration_params.json", "scheduler_pickled.pickle", "loss_function_pickled.pickle", "calibration_results.csv", "series_samp.h5"]
 CHILD = VERIF / "harness/children/save_child.py"
 PY = sys.executable
-KNOWN_SIGS = {f"C06/json/hybrid@openat:{f}" for f in FILES[1:]} | {"C06/json/hybrid@pwrite64:series_samp.h5", "C06/json/hybrid@prefix:calibration_results.csv"}
+KNOWN_SIGS = None      # the list lives in known_findings.json (signature = crash point / folder situation / what the series file looks like)
 
 
 class State(tuple):
@@ -105,6 +105,26 @@ def file_state(folder, base, full, L2, name):
         return "P" if cur == oldb else "C"
     finally:
         shutil.rmtree(d, ignore_errors=True)
+
+
+def series_rows_tag(folder, base, full):
+    """what a readable series file holds after a crash: the previous checkpoint's rows, the new one's, or something else (then: whose row count)"""
+    import h5py
+
+    def load(d):
+        try:
+            with h5py.File(os.path.join(d, FILES[4]), "r") as f:
+                return f["data"][:]
+        except Exception:  # noqa: BLE001
+            return None
+    r, ro, rn = load(folder), load(base) if base else None, load(full)
+    same = lambda x, y: x is not None and y is not None and x.shape == y.shape and x.tobytes() == y.tobytes()
+    if same(r, ro):
+        return "old-content"
+    if same(r, rn):
+        return "new-content"
+    n = None if r is None else r.shape[0]
+    return "mixed-content,row-count-of-" + ("new" if rn is not None and n == rn.shape[0] else "old" if ro is not None and n == ro.shape[0] else "neither")
 
 
 def refs(folder):
@@ -226,7 +246,7 @@ def run_json_crashes(chk: Check, label, prev_states, new_state, cfg_info):
 
         with ThreadPoolExecutor(max_workers=12) as ex:
             results = list(ex.map(one, jobs))
-        reqs, meta = [], []
+        reqs, meta, d_of = [], [], {}
         for (g, nm, j, f), d, landed, saved in results:
             work.append(d)
             if saved:
@@ -238,6 +258,7 @@ def run_json_crashes(chk: Check, label, prev_states, new_state, cfg_info):
             vec = [file_state(d, base if have_prev else None, full, L2, name) for name in FILES]
             outcome, detail = classify(d, L1, L2)
             reqs.append("ckpt.outcome " + " ".join(vec)); meta.append((g, nm, f, vec, outcome, detail))
+            d_of[g] = d
         answers = lean_run(reqs) if reqs else []
         for (g, nm, f, vec, outcome, detail), ans in zip(meta, answers):
             chk.case([label, cfg_info, g], True, {"label": label, "killed_at": f"{nm} #{g} on {f}", "file_states": dict(zip(FILES, vec)), "restore": outcome})
@@ -251,7 +272,10 @@ def run_json_crashes(chk: Check, label, prev_states, new_state, cfg_info):
                              {"file_states": vec, "impl": outcome, "model": ans, "detail": detail, "event": [g, nm, f]})
             if outcome == "hybrid":
                 k = next((i for i, v in enumerate(vec) if v not in "DS"), 4)
-                sig = f"C06/json/hybrid@{nm}:{f}"
+                sig = f"C06/json/hybrid@{nm}:{f}/{label}"
+                if vec[4] == "C":
+                    # a series file that is readable but neither the old nor the new one: say what it looks like (row count of which checkpoint)
+                    sig += ":series=" + series_rows_tag(d_of[g], base if have_prev else None, full)
                 chk.fail(f"restore after a kill at {nm} on {f} ({label}) returns a mixture: {detail}",
                          {"case": {"kind": "kill", "label": label, "event": [g, nm, f], "file_states": vec}}, signature=sig)
         return base, full, r_old, r_new, L1, L2
